@@ -107,3 +107,9 @@ mk g5 false false
 printf 'fn f(){ x::info!("a"); }\n' > $W/g5/src/a.rs
 $B --config $W/g5/Breadlog.yaml >$W/out 2>&1
 grep -q 'ref:' $W/g5/src/a.rs && echo "DEFECT C11 x::info! treated as info!: $(cat $W/g5/src/a.rs)" || echo "OK C11 one-letter module"
+mk g6 true false
+printf 'fn f(){ let r = retry!(op = info!("trying")); }\n' > $W/g6/src/a.rs
+$B --config $W/g6/Breadlog.yaml >$W/out 2>&1
+printf 'fn g(){ info!("second"); }\n' > $W/g6/src/b.rs
+$B --config $W/g6/Breadlog.yaml >$W/out 2>&1
+if grep -q 'ref = 1;' $W/g6/src/a.rs && grep -q 'ref = 1;' $W/g6/src/b.rs; then echo "DEFECT C06 statement nested in another macro's key = value is not recognised after its edit; its id is handed out again: $(cat $W/g6/src/a.rs $W/g6/src/b.rs | tr '\n' ' ')"; else echo "OK C06 nested statement ($(cat $W/g6/src/a.rs $W/g6/src/b.rs | tr '\n' ' '))"; fi
